@@ -117,7 +117,7 @@ Fixpoint list_eqb {A} (f : A -> A -> bool) (a b : list A) : bool :=
   | _, _ => false
   end.
 Definition tl_eqb (a b : tlist) : bool :=
-  slot_eqb (tl_slot a) (tl_slot b) && class_eqb (tl_class a) (tl_class b) && Bool.eqb (tl_listy a) (tl_listy b)
+  slot_eqb (tl_slot a) (tl_slot b) && class_eqb (tl_class a) (tl_class b)
   && list_eqb note_eqb (tl_notes a) (tl_notes b) && list_eqb Z.eqb (tl_ids a) (tl_ids b).
 
 Definition specb (m : chart) (gap thr : Z) (o : option chart) : bool :=
@@ -144,10 +144,7 @@ Definition wf_chart (m : chart) : bool :=
   && forallb (fun l => match tl_class l with CNone => match tl_notes l with [] => true | _ => false end | _ => true end) m.
 Definition wfb (m : chart) (gap thr : Z) : bool := wf_chart m && (0 <=? gap) && (0 <=? thr).
 
-(* guards that exclude the two defect classes of the pinned tree (see Props/C17.v, *_refuted) *)
+(* guard that excludes the defect class of the pinned tree (see Props/C17.v, *_refuted) *)
 (* no other list of the chart is a non-empty HitList/HoldList instance (StepMania mines, rolls, ...) *)
 Definition no_extra (m : chart) : bool :=
   forallb (fun l => match tl_class l, tl_notes l with CNone, _ => true | _, [] => true | _, _ => false end) (others m).
-(* the classes of m.hits / m.holds have no list-valued default field (Quaver keysounds) *)
-Definition no_listy (m : chart) : bool :=
-  forallb (fun l => negb (tl_listy l)) (slot_lists SHits m ++ slot_lists SHolds m).
